@@ -133,11 +133,25 @@ func verifExpiry(rep *verifrep.R, base int64, n int) {
 		rounds = 5
 	}
 	for r := 0; r < rounds; r++ {
-		expirations := []time.Duration{3 * time.Minute, 10 * time.Minute, 30 * time.Minute, time.Hour}
+		// 0: the configuration in force has no SessionExpiration line; the node then
+		// works with the default of 10 minutes (statemachine.go does so for the compaction
+		// horizon, config.DefaultConfig for a network without any configuration)
+		expirations := []time.Duration{3 * time.Minute, 10 * time.Minute, 30 * time.Minute, time.Hour, 0}
 		exp := expirations[(int(base)+r)%len(expirations)]
 		srv := verifNewServer()
-		srv.Config.SessionExpiration = config.Duration(exp)
-		srv.Config.IRC.Services = []config.Service{{Password: "svcpass"}}
+		if exp == 0 {
+			cfg, err := config.FromString("PostMessageCooloff = \"0\"\n[IRC]\n  [[IRC.Services]]\n    Password = \"svcpass\"\n")
+			if err != nil {
+				rep.Broken("configuration without SessionExpiration does not parse: " + err.Error())
+				return
+			}
+			srv.Config = cfg
+			exp = 10 * time.Minute
+			rep.Obs("expiry.rounds-without-configured-expiration", 1)
+		} else {
+			srv.Config.SessionExpiration = config.Duration(exp)
+			srv.Config.IRC.Services = []config.Service{{Password: "svcpass"}}
+		}
 		now := time.Now()
 		type want struct {
 			expire bool
